@@ -110,6 +110,8 @@ def rtsafe_(f, x0, bracket, settings):
 
     F, DF = f_and_fprime(x0)
     functionCalls += 1
+    # an exact root needs no step (and a Newton step from a root with zero slope would be 0/0)
+    converged = converged | (np.abs(F) <= r_tol)
 
     def cond(carry):
         root, dx, dxOld, F, DF, xl, xh, converged, i = carry
@@ -135,7 +137,7 @@ def rtsafe_(f, x0, bracket, settings):
                              lambda rt, lo, hi: (lo, rt),
                              root, xl, xh)
         i += 1
-        converged = converged | (np.abs(dx) < x_tol) | (np.abs(F) < r_tol)
+        converged = converged | (np.abs(dx) < x_tol) | (np.abs(F) <= r_tol)
         return root, dx, dxOld, F, DF, xl, xh, converged, i
 
     x, dx, _, F, _, _, _, converged, iters = jax.lax.while_loop(cond,
